@@ -261,7 +261,7 @@ void run_fmt(Ctx &c) {
 	a.u = t.pick(3) ? t.pick(100000) : (unsigned)boundary_value(t, false);
 	a.l = t.pick(3) ? (long)t.pick(1000000) - 500000 : (long)boundary_value(t, true);
 	a.ull = t.pick(3) ? t.pick(1000000) : boundary_value(t, false);
-	a.ch = (char)(33 + t.pick(90));
+	a.ch = t.pick(5) == 0 ? (char)(128 + t.pick(128)) : (char)(33 + t.pick(90));     // also negative chars (non-ASCII bytes)
 	static const char *strs[] = {"", "world", "a b", "{x}", "}"};
 	a.cs = strs[t.pick(5)];
 	a.sv = strs[t.pick(5)];
@@ -296,7 +296,7 @@ void run_fmt(Ctx &c) {
 			// keep inside the documented domain
 			bool is_char = argi == 4, is_str = argi == 5 || argi == 6;
 			if(conv == 'c' && !is_char) conv = 'd';
-			bool negative = (argi == 0 && a.i < 0) || (argi == 2 && a.l < 0);
+			bool negative = (argi == 0 && a.i < 0) || (argi == 2 && a.l < 0) || (argi == 4 && a.ch < 0);
 			if(negative && (conv == 'b' || conv == 'o' || conv == 'x' || conv == 'X')) conv = 'd';
 			if(is_str && conv == 'c') conv = 0;
 			if(conv) spec += conv;
@@ -312,7 +312,7 @@ void run_fmt(Ctx &c) {
 		case 1: expect += render_int(a.u, false, radix, caps, width, zero); break;
 		case 2: expect += render_int(a.l, true, radix, caps, width, zero); break;
 		case 3: expect += render_int((long long)a.ull, false, radix, caps, width, zero); break;
-		case 4: if(conv == 'c') expect += a.ch; else expect += render_int(a.ch, true, radix, caps, width, zero); break;
+		case 4: if(conv == 'c') expect += a.ch; else { if(a.ch < 0) c.tag("fmt-negative-char"); expect += render_int(a.ch, true, radix, caps, width, zero); } break;
 		case 5: expect += a.cs; break;
 		default: expect += a.sv; break;
 		}
